@@ -143,7 +143,7 @@ func RunRange(t *testing.T, p *PropDef, seed, from, to uint64, statusPath string
 		for _, v := range res.Viol {
 			key := v.Rule + "|" + v.Sig
 			violSeen[key]++
-			if violSeen[key] > 2 { // keep at most two witnesses per (rule, signature) per worker
+			if violSeen[key] > 1 { // keep at most two witnesses per (rule, signature) per worker
 				continue
 			}
 			rf := minimise(t, p, res, v, seed, idx)
@@ -206,7 +206,7 @@ func minimise(t *testing.T, p *PropDef, res *RunResult, v Violation, seed, idx u
 	bestV := v
 	orig := len(best)
 	runs := 0
-	deadline := time.Now().Add(45 * time.Second)
+	deadline := time.Now().Add(12 * time.Second)
 	try := func(cand []uint32) bool {
 		if runs >= 1500 || time.Now().After(deadline) {
 			return false
